@@ -8,8 +8,8 @@ CHECK = {
  'title': 'Sensor smoothing stays within observed readings, converges, ignores failed reads',
  'level': 'fault_enumeration',
  'technique': 'exhaustive enumeration of reading/fault sequences through the real initializeSensors seeding and updateSensor monitor path on real hwmon/file/cmd sensors',
- 'rule': 'for each sensor kind x tempRollingWindowSize {1,2,10,50} (cmd {1,10}): every sequence of one seeding read + 4 (quick) / 5 (thorough) polls (cmd: 3 / 4) over the alphabet '
-         '{-40000, 0, 35000, 35001, 100000, 1e12} U faults {missing, empty, non-numeric file; cmd: exit 1, non-numeric, empty output, nan, inf, -inf}. Oracle after every poll: average within the hull of the '
+ 'rule': 'for each sensor kind x tempRollingWindowSize {1,2,10,50} (cmd {1,10}): every sequence of one seeding read + 3 (quick) / 4 (thorough) polls (cmd: 3 / 4) over the alphabet '
+         '{-40000, 0, 35000, 35001, 100000, 1e12} U faults {REAL file content parsed by fan2go itself: missing, empty, whitespace-only, non-numeric, digits followed by text, decimal number; cmd: exit 1, non-numeric, empty output, nan, inf, -inf}. Oracle after every poll: average within the hull of the '
          'initial value and all successful finite readings (relative eps 1e-12), |a\'-c| <= (1-1/n)|a-c| for a reading c, and after a failed or non-finite poll the average is bit-identical and finite. '
          'distinct_nontrivial = passing sequences that mix successful reads and faults.',
  'assumptions': COMMON_ASSUME + ['cmd sensor faults are produced by a root-owned /bin/sh script whose body is switched per poll'],
